@@ -355,6 +355,11 @@ func replayMain(t *testing.T, e Engine, path string) {
 	for _, v := range res.Violations {
 		fmt.Printf("  other: %s %s %s\n", v.Property, v.Class, v.Detail)
 	}
+	if os.Getenv("VERIF_VERBOSE") != "" {
+		for _, l := range res.Log {
+			fmt.Println("  | " + l)
+		}
+	}
 }
 
 // minimizeMain greedily shrinks a replay while the same violation class persists.
